@@ -2,7 +2,7 @@
 from .. import common, gen, mergecorr, oracles, t2
 from . import base
 
-THEOREMS = ['C05_path_irrelevant', 'C05_wrap', 'C05_sim_content', 'C05_fuel_irrelevant', 'C05_frame', 'C05_frame_at_any_depth', 'C05_mentioned_key_is_recursive_merge', 'C05_sibling_independent']
+THEOREMS = ['C05_path_irrelevant', 'C05_wrap', 'C05_sim_content', 'C05_fuel_irrelevant', 'C05_frame', 'C05_frame_at_any_depth', 'C05_mentioned_key_is_recursive_merge', 'C05_sibling_independent', 'C05_merged_at_any_depth']
 
 
 def tag_kind(n):
